@@ -46,6 +46,7 @@ func pollmgrScenario(n0, pickers int, reconfig string) *vsched.Scenario {
 	var seqPicks [][]int // per phase: epfds of the sequential picks
 	var configured []int
 	var rr []bool
+	var handoff hbFlag
 	sc := &vsched.Scenario{Name: "pollmgr", Horizon: 8000}
 	sc.Body = func() {
 		picks, seqPicks, configured, rr = nil, nil, nil, nil
@@ -78,9 +79,11 @@ func pollmgrScenario(n0, pickers int, reconfig string) *vsched.Scenario {
 					fd, _ := netpoll.VerifPollFds(p)
 					picks = append(picks, pickRec{phase: ph, epfd: fd, p: p})
 					done++
+					handoff.Set()
 				})
 			}
 			vsched.WaitCond("pickers-done", func() bool { return done == pickers })
+			handoff.Acquire() // the phase boundary is synchronised, as the contract requires of the caller
 			vsched.Settle(fmt.Sprintf("phase%d", ph))
 			// consecutive picks from one goroutine: round-robin evenness
 			var sp []int
